@@ -94,6 +94,24 @@ func (w *World) callMods(c *ssa.CallCommon) map[string]bool {
 	}
 	if callee := c.StaticCallee(); callee != nil {
 		switch shortName(callee.String()) {
+		case "(*sync.Once).Do":
+			// runs its argument once and sets the flag (see Exec.intrinsic)
+			m := map[string]bool{}
+			if len(c.Args) == 2 {
+				if mc, ok := c.Args[1].(*ssa.MakeClosure); ok {
+					for n, wr := range w.fnMods(mc.Fn.(*ssa.Function)) {
+						addMod(m, n, wr)
+					}
+				} else {
+					m["*"] = true
+				}
+				if ff, ok := c.Args[0].(*ssa.FieldAddr); ok {
+					w.fieldMod(ff, m, true)
+				} else {
+					m["P$Bool"] = true
+				}
+			}
+			return m
 		case "io.WriteString", "fmt.Fprintf", "fmt.Fprint", "fmt.Fprintln":
 			// modelled as: p := []byte(formatted); w.Write(p)   (see Exec.intrinsic)
 			m := map[string]bool{"S$Int": false}
